@@ -487,6 +487,11 @@ class Visitor(ast.NodeVisitor):
         if node.id in self._name_to_value:
             result = self._name_to_value[node.id]
 
+            if result is PLACEHOLDER:
+                # The name is a target of an enclosing comprehension which shadows a variable of the condition.
+                # Its value is not known here, so it must not be recorded (and represented) either.
+                return PLACEHOLDER
+
         if result is None and hasattr(builtins, node.id):
             result = getattr(builtins, node.id)
 
